@@ -1,7 +1,7 @@
 (* Properties.v — the property theorems, and nothing else.  Each is closed by [exact] of a lemma
    proved in the Proofs* files and followed by Print Assumptions. *)
 From Coq Require Import Permutation.
-From Godi Require Import Base GDfs GKahn GKahnComplete GraphSpec Conc Web Model Check ProofsGraph ProofsConc ProofsWeb ProofsRegistry ProofsRuntime ProofsClosed ProofsTerm ProofsWf ProofsSingle ProofsOutputs ProofsFresh ProofsGen ProofsFrame ProofsFrozen ProofsOnce ProofsConserve ProofsOnceWorld ProofsCloses ProofsOrder ProofsStable ProofsCalls.
+From Godi Require Import Base GDfs GKahn GKahnComplete GraphSpec Conc Web Model Check ProofsGraph ProofsConc ProofsWeb ProofsRegistry ProofsRuntime ProofsClosed ProofsTerm ProofsWf ProofsSingle ProofsOutputs ProofsFresh ProofsGen ProofsFrame ProofsFrozen ProofsOnce ProofsConserve ProofsOnceWorld ProofsCloses ProofsOrder ProofsStable ProofsCalls ProofsAccepted.
 
 (* ---------------------------------------------------------------- C01 *)
 Theorem C01_resolving_a_singleton_is_a_table_read : forall fuel rs h d,
@@ -74,8 +74,8 @@ Theorem C02_scoped_instance_is_the_same_forever : forall c fuel fuel' rs h d d' 
 Proof. exact scoped_instance_is_the_same_forever. Qed.
 Print Assumptions C02_scoped_instance_is_the_same_forever.
 
-(* the premise [calls_wf] is an invariant of the registry: it holds after every history of registrations (no field with
-   both name and group, no As on an initializer), removals and modules; a scope that has answered nothing yet has its
+(* the premise [calls_wf] is an invariant of the registry: it holds after every history of registrations (no As on an
+   initializer), removals and modules; a scope that has answered nothing yet has its
    calls "together" *)
 Theorem C02_registries_built_by_histories_have_wellformed_calls : forall ops,
   Forall op_calls_ok ops -> calls_wf (w_coll (fst (run_from init_world ops))).
@@ -173,14 +173,13 @@ Theorem C05_a_decreasing_rank_bounds_the_recursion : forall c (rank : desc -> na
 Proof. exact resolve_never_out_of_fuel. Qed.
 Print Assumptions C05_a_decreasing_rank_bounds_the_recursion.
 
-(* the well-formedness premise above is an invariant of the registry: it holds after every history of calls
-   in which no dependency and no result-object field carries both a name and a group *)
+(* the well-formedness premise above is an invariant of the registry: it holds after EVERY history of calls *)
 Theorem C05_registry_well_formed_after_every_history : forall ops,
-  forallb op_ok ops = true -> wf_coll (w_coll (fst (run_from init_world ops))).
+  wf_coll (w_coll (fst (run_from init_world ops))).
 Proof. exact wf_after_every_history. Qed.
 Print Assumptions C05_registry_well_formed_after_every_history.
 
-Theorem C05_accepted_histories_resolve_in_bounded_depth : forall ops, forallb op_ok ops = true ->
+Theorem C05_accepted_histories_resolve_in_bounded_depth : forall ops,
   let c := w_coll (fst (run_from init_world ops)) in
   has_cycle c = false ->
   exists N, forall fuel rs h d, N <= fuel -> p_descs (rs_p rs) = c -> In d c -> snd (resolve_d fuel rs h d) <> RFuel.
@@ -233,12 +232,67 @@ Theorem C07_build_rejects_captive_dependencies : forall c invs ord,
 Proof. exact build_rejects_captive. Qed.
 Print Assumptions C07_build_rejects_captive_dependencies.
 
+(* "If Build succeeds, no singleton and no transient can ever be constructed with an instance of a scoped
+   registration": on a registry that passed the lifetime validation, every resolution - of anything, in any scope,
+   from any state whose singleton table holds no such instance - keeps the singleton table free of them, logs no
+   constructor call of a singleton or transient registration that received one (directly, in a group slice, under a
+   key, through an alias or a parameter object), and answers a request for a singleton or transient with none.
+   [CInv c rs]: the singleton table of rs holds no instance of a scoped registration of c and every constructor call
+   logged so far for a non-scoped registration of c received none. *)
+Theorem C07_no_singleton_or_transient_is_built_from_a_scoped_instance : forall c,
+  lifetime_conflict c = false -> rids_wf c ->
+  forall fuel rs h d, p_descs (rs_p rs) = c -> CInv c rs -> In d c ->
+  CInv c (fst (resolve_d fuel rs h d)) /\
+  (ds_life d <> Scoped -> forall a, snd (resolve_d fuel rs h d) = ROkV a -> ns_aval c a).
+Proof. exact accepted_registry_has_no_captive_instance. Qed.
+Print Assumptions C07_no_singleton_or_transient_is_built_from_a_scoped_instance.
+
+(* Build itself establishes that state: the provider it returns has such a singleton table, and every constructor
+   call made during Build meets the same condition *)
+Theorem C07_build_captures_nothing : forall c invs ord invs' evs p, rids_wf c ->
+  build c invs ord = (invs', evs, inl p) ->
+  lifetime_conflict c = false /\ p_descs p = c /\ inv_p c p /\ Forall (ev_ok c) evs.
+Proof. exact build_makes_no_captive. Qed.
+Print Assumptions C07_build_captures_nothing.
+
+(* the premise (an instance names its registration by id: one lifetime per id) holds of the registry after every
+   history that adds registrations from a set with that property *)
+Theorem C07_one_lifetime_per_id_after_every_history : forall (Rs : reg -> Prop) ops,
+  ids_one_lifetime Rs -> Forall (op_regs_ok Rs) ops -> rids_wf (w_coll (fst (run_from init_world ops))).
+Proof. exact rids_wf_after_every_history. Qed.
+Print Assumptions C07_one_lifetime_per_id_after_every_history.
+
 (* ---------------------------------------------------------------- C08 *)
 Theorem C08_build_rejects_missing_dependencies : forall c invs ord,
   has_cycle c = false -> lifetime_conflict c = false -> missing_required c = true ->
   build c invs ord = (invs, [], inr ENotFound).
 Proof. exact build_rejects_missing. Qed.
 Print Assumptions C08_build_rejects_missing_dependencies.
+
+(* "If Build succeeds, resolving any registered service never fails with 'service not found'": on a registry that
+   passed the missing-dependency validation, no resolution of a registered service - in any scope, from any state,
+   at any depth of the dependency chain, with any fuel - answers NotFound *)
+Theorem C08_accepted_registry_never_answers_not_found : forall c, missing_required c = false -> opt_wf c ->
+  forall fuel rs h d, p_descs (rs_p rs) = c -> In d c -> snd (resolve_d fuel rs h d) <> RFail ENotFound.
+Proof. exact accepted_registry_never_answers_not_found. Qed.
+Print Assumptions C08_accepted_registry_never_answers_not_found.
+
+Theorem C08_registered_request_is_found : forall c, missing_required c = false -> opt_wf c ->
+  forall rs h t k d, p_descs (rs_p rs) = c -> find_service c t k = Some d -> snd (resolve_req rs h t k) <> RFail ENotFound.
+Proof. exact registered_request_is_found. Qed.
+Print Assumptions C08_registered_request_is_found.
+
+Theorem C08_group_request_is_found : forall c, missing_required c = false -> opt_wf c ->
+  forall rs h t g, p_descs (rs_p rs) = c -> snd (resolve_group rs h t g) <> RFail ENotFound.
+Proof. exact group_request_is_found. Qed.
+Print Assumptions C08_group_request_is_found.
+
+(* the premise (`optional` exists on fields of parameter objects only) holds of the registry after every history of
+   registrations that have it *)
+Theorem C08_optional_only_in_objects_after_every_history : forall ops,
+  Forall (op_regs_ok reg_opt_wf) ops -> opt_wf (w_coll (fst (run_from init_world ops))).
+Proof. exact opt_wf_after_every_history. Qed.
+Print Assumptions C08_optional_only_in_objects_after_every_history.
 
 (* ---------------------------------------------------------------- C09 *)
 (* for every number of resolving, scope-creating and closing threads, every program they run (well-formed or not)
